@@ -21,9 +21,9 @@ LEVEL = "model_checking"
 ENGINES = ["E1 nir2smt", "E3 BMC + one-step induction"]
 TECHNIQUE = "BMC from reset against a z3 list model + one-step induction under the representation invariant (permutation, used <= entries); counterexamples replayed on amaranth.sim"
 BOUNDS = {
-    "quick": "entries 1..5, BMC 2*entries+2 cycles from reset, all subsets of simultaneous alloc/free/free_idx/order/clear, all arguments; "
+    "quick": "entries 1..5, BMC 4/6/8/10/8 cycles from reset, all subsets of simultaneous alloc/free/free_idx/order/clear, all arguments; "
              "one-step induction for entries 2..6",
-    "thorough": "entries 1..8, BMC 6/10/12/14/14/14/13/12 cycles; one-step induction for entries 2..12",
+    "thorough": "entries 1..8, BMC 6/10/14/12/11/10/9/9 cycles; one-step induction for entries 2..12",
 }
 OUTSIDE = ["histories that free an identifier which is not allocated or an index >= used (documented precondition)",
            "histories longer than the BMC bound where the inductive step is not run", "entry counts above the enumerated range",
@@ -45,12 +45,12 @@ def make(cfg):
 def configs(tier, seed):
     out = []
     if tier == "quick":
-        for n in (1, 2, 3, 4, 5):
-            out.append(dict(entries=n, mode="bmc", K=2 * n + 2))
+        for n, k in ((1, 4), (2, 6), (3, 8), (4, 10), (5, 8)):
+            out.append(dict(entries=n, mode="bmc", K=k))
         for n in (2, 3, 4, 5, 6):
             out.append(dict(entries=n, mode="ind"))
     else:
-        for n, k in ((1, 6), (2, 10), (3, 12), (4, 14), (5, 14), (6, 14), (7, 13), (8, 12)):
+        for n, k in ((1, 6), (2, 10), (3, 14), (4, 12), (5, 11), (6, 10), (7, 9), (8, 9)):
             out.append(dict(entries=n, mode="bmc", K=k))
         for n in range(2, 13):
             out.append(dict(entries=n, mode="ind"))
